@@ -129,7 +129,9 @@ fn worker(args: &[String]) -> i32 {
             if (idx / nshards) % (if thorough { 211 } else { 97 }) == 3 {
                 let again = plan::exec(&p);
                 *agg.rep.stats.entry("determinism.runs_reexecuted_and_compared".into()).or_insert(0) += 1;
-                if again.digest != out.digest || again.violations.len() != out.violations.len() {
+                if again.timing_dependent || out.timing_dependent {
+                    *agg.rep.stats.entry("determinism.sample_skipped_unknown_os_blocking".into()).or_insert(0) += 1;
+                } else if again.digest != out.digest || again.violations.len() != out.violations.len() {
                     agg.rep.harness_errors.push(format!("nondeterminism: job {} seed {seed}: digests {:x} vs {:x}", job.name, out.digest, again.digest));
                 }
             }
